@@ -15,7 +15,7 @@ pkgdir() { # map a test file to its package directory
   case $pk in
     protocol) echo cmd/rdpgw/protocol;; security) echo cmd/rdpgw/security;; web) echo cmd/rdpgw/web;; transport) echo cmd/rdpgw/transport;;
     kdcproxy) echo cmd/rdpgw/kdcproxy;; ntlm) echo cmd/auth/ntlm;; config) echo cmd/rdpgw/config;; identity) echo cmd/rdpgw/identity;; main) echo cmd/rdpgw;;
-    rdp) if grep -q 'Unmarshal\|Parser()' "$1"; then echo cmd/rdpgw/rdp/koanf/parsers/rdp; else echo cmd/rdpgw/rdp; fi;;
+    rdp) if grep -q 'NewBuilder' "$1"; then echo cmd/rdpgw/rdp; elif grep -q 'Unmarshal\|Parser()' "$1"; then echo cmd/rdpgw/rdp/koanf/parsers/rdp; else echo cmd/rdpgw/rdp; fi;;
     *) echo "";;
   esac
 }
@@ -30,7 +30,7 @@ run_demo() { # copies all demo test files, runs their tests per package, prints 
   local flags=""; grep -q -i '"-race\|go test -race\| -race ' $SRC/meta.json 2>/dev/null && flags="-race"
   for d in $dirs; do
     local names=$(cat $SRC/*_test.go | grep -o '^func Test[A-Za-z0-9_]*' | sed 's/func //' | paste -sd'|')
-    (cd $WT && timeout 900 go test $flags -vet=off -count=1 -run "^($names)\$" ./$d/ >/tmp/demo-$ID.log 2>&1) || res=FAIL
+    (cd $WT && timeout 900 go test $flags -vet=off -count=${DEMO_COUNT:-1} -run "^($names)\$" ./$d/ >>/tmp/demo-$ID.log 2>&1) || res=FAIL
   done
   rm -f $copied
   echo $res
